@@ -145,6 +145,31 @@ def run_pair(c):
             if a.touches(b2) != exp or b2.touches(a) != exp:
                 raise Violation("touches: a=%s, b=%s moved away by %r: reported %r, expected %r (eps=%r)" % (
                     ea, eb, shift, a.touches(b2), exp, eps), "touches-eps")
+    # thin common regions: b pushed INTO a by eps/2 and 2*eps along the contact axis.  The common area is positive, so the
+    # intersection exists (regions permitting) however thin it is - the distance tolerance only belongs to touches()
+    if gap0 and (gx == 0 or gy == 0):
+        for shift in (eps / 2, 2 * eps):
+            dx = (-shift if eb[0] >= ea[2] else shift if eb[2] <= ea[0] else 0.0) if gx == 0 else 0.0
+            dy = (-shift if eb[1] >= ea[3] else shift if eb[3] <= ea[1] else 0.0) if gy == 0 and dx == 0.0 else 0.0
+            if dx == 0.0 and dy == 0.0:
+                continue
+            b2 = b.duplicate()
+            b2.center = Point(b.center.x + dx, b.center.y + dy)
+            e2 = frx(b2)
+            thin = X.inter_area(ea, e2)
+            if thin <= 0:
+                continue
+            cls.append("thin-overlap")
+            if Fr(a.area_overlap(b2)) != thin or Fr(b2.area_overlap(a)) != thin:
+                raise Violation("area_overlap of a=%s and b=%s pushed %r into it: %r, common area %s" % (ea, eb, shift, a.area_overlap(b2), thin),
+                                "area_overlap-thin")
+            for p, q, ep, eq in ((a, b2, ea, e2), (b2, a, e2, ea)):
+                i = p * q
+                if (i is not None) != (p.region == q.region):
+                    raise Violation("__mul__: %s * %s (common region %r thick, positive area %s, eps %r, regions %s/%s) gives %r" % (
+                        ep, eq, shift, float(thin), eps, p.region, q.region, i), "mul-exists-thin")
+                if i is not None and frx(i) != X.inter(ep, eq):
+                    raise Violation("__mul__: thin intersection of %s and %s is %s" % (ep, eq, frx(i)), "mul-geometry-thin")
     # equality: same centre, shape and region
     if (a == b) != (ea == eb and a.region == b.region):
         raise Violation("__eq__: a=%s/%s b=%s/%s gives %r" % (ea, a.region, eb, b.region, a == b), "eq")
@@ -285,7 +310,7 @@ def run_split(c):
 def subchecks():
     return [
         Sub("pairs", run_pair, strategy=pair_case(), n_quick=40000, n_thorough=800000,
-            required=("contact", "crossing", "nested", "regions-differ")),
+            required=("contact", "crossing", "nested", "regions-differ", "thin-overlap")),
         Sub("splits", run_split, strategy=split_case(), n_quick=30000, n_thorough=600000,
             required=("square", "oblong", "grid-pow2", "grid-inexact", "cut-inside", "cut-outside")),
     ]
